@@ -42,8 +42,13 @@ def run_one(name, tier):
         raise SystemExit("/repo has uncommitted changes; refusing to apply a patch")
     rc, out = sh(["git", "apply", os.path.join(d, "patch.diff")], cwd=REPO)
     if rc != 0:
-        res["error"] = "patch does not apply: " + out[-300:]
-        return res
+        # the tree has moved on since the rewrite was written (fix commits): merge it
+        rc, out2 = sh(["git", "apply", "-3", os.path.join(d, "patch.diff")], cwd=REPO)
+        if rc != 0 or "U " in sh("git status --porcelain", cwd=REPO)[1]:
+            sh("git reset -q --hard", cwd=REPO)
+            res["error"] = "patch does not apply: " + (out + out2)[-300:]
+            return res
+        res["applied"] = "3-way merge onto the current HEAD"
     try:
         for p in [meta["property"]] + meta.get("also_check", []):
             rc, out = sh("/venv/bin/python -W ignore harness/check.py %s --tier %s" % (p, tier), cwd=VERIF)
@@ -52,7 +57,7 @@ def run_one(name, tier):
             res["check_" + p] = {"rc": rc, "lines": [l[:400] for l in lines[:12]],
                                  "concrete_replay": any(not l.rstrip().endswith("no-failing-input-found") for l in vio)}
     finally:
-        sh("git checkout -- .", cwd=REPO)
+        sh("git reset -q --hard", cwd=REPO)
         sh("git clean -fdq pyrex", cwd=REPO)
     cks = [v for k, v in res.items() if k.startswith("check_")]
     res["outcome"] = ("quiet" if all(c["rc"] == 0 for c in cks) else
